@@ -161,7 +161,8 @@ def shape_call(ctx, case):
     ctx.check(np.all(np.isfinite(lib.real)) and np.all(np.isfinite(lib.imag)), "finite", "%s: %s" % (model, lib[:4]))
     # per-point tolerance relative to the modulus (at m = m0 the real part is an exact cancellation: its rounding
     # error is of relative size 1e-16 |R|^2 (m0 Gamma) m0, not relative to Re R = 0)
-    atol = 1e-11 * scale + 1e-9 * np.abs(ref)
+    # conditioning of a narrow pole: one rounding error eps in m0^2 - m^2 moves R by |R|^2 m0^2 eps
+    atol = 1e-11 * scale + 1e-9 * np.abs(ref) + 1e-15 * par["mass"] ** 2 * np.abs(ref) ** 2
     ctx.close(lib.real, ref.real, "formula_real:" + model, rtol=1e-9, atol=atol, what="%s L=%d Re" % (model, par["L"]))
     ctx.close(lib.imag, ref.imag, "formula_imag:" + model, rtol=1e-9, atol=atol, what="%s L=%d Im" % (model, par["L"]))
     if model in FAMILY:
